@@ -316,6 +316,44 @@ def canon_x(F, e, sk, depth=2, defs=None):
     return sk.canon(F, e, env)
 
 
+
+def enclosing_ifs(F, e):
+    """[(condition expr id, True for the then-arm / False for the else-arm)] of the if statements that enclose the statement
+    evaluating node e (statement tree, so a condition a||b is one expression), outermost first"""
+    root = e
+    while F.sparent.get(root) is not None:
+        root = F.sparent[root]
+
+    def find(s, acc):
+        if s is None:
+            return None
+        k = s['k']
+        if k in ('expr', 'decl', 'ret') and s.get('e') == root:
+            return acc
+        if k == 'seq':
+            for c in s['c']:
+                r = find(c, acc)
+                if r is not None:
+                    return r
+        elif k == 'if':
+            if s.get('cond') == root:
+                return acc
+            r = find(s.get('then'), acc + [(s['cond'], True)])
+            if r is None:
+                r = find(s.get('else'), acc + [(s['cond'], False)])
+            return r
+        elif k in ('for', 'while', 'do', 'switch', 'case', 'default', 'label'):
+            for key in ('init', 'body'):
+                if isinstance(s.get(key), dict):
+                    r = find(s[key], acc)
+                    if r is not None:
+                        return r
+            if s.get('cond') == root or s.get('inc') == root:
+                return acc
+        return None
+    return find(F.d.get('body'), []) or []
+
+
 class Proxy:
     """records the obligations of a shared rule function under another rule id"""
     def __init__(self, chk, rid, only=None):
